@@ -1,5 +1,1373 @@
 /- Helper lemmas about RV.Model.Server used by RV.Props.C06 and RV.Props.C07. -/
 import RV.Model.Server
 import RV.Props.C03
-namespace RV
-end RV
+namespace RV.Server
+
+/-! ### generic list lemmas -/
+
+theorem filter_set_length {α} (p : α → Bool) (l : List α) (i : Nat) (a b : α) (h : l[i]? = some a) :
+    ((l.set i b).filter p).length + (if p a then 1 else 0) = (l.filter p).length + (if p b then 1 else 0) := by
+  induction l generalizing i with
+  | nil => simp at h
+  | cons x xs ih =>
+    cases i with
+    | zero =>
+      simp at h; subst h
+      simp [List.filter_cons]
+      split <;> split <;> simp <;> omega
+    | succ n =>
+      simp at h
+      have := ih n h
+      simp only [List.set_cons_succ, List.filter_cons]
+      split <;> (try simp only [List.length_cons]) <;> omega
+
+theorem getD_set {α} (l : List α) (i j : Nat) (a d : α) :
+    (l.set i a).getD j d = if i = j ∧ i < l.length then a else l.getD j d := by
+  simp only [List.getD_eq_getElem?_getD, List.getElem?_set]
+  by_cases h : i = j
+  · subst h
+    by_cases h2 : i < l.length <;> simp [h2]
+  · simp [h]
+
+theorem lt_of_getElem?_eq_some {α} {l : List α} {i : Nat} {a : α} (h : l[i]? = some a) : i < l.length := by
+  have := List.getElem?_eq_some_iff.mp h
+  exact this.1
+
+/-! ### `activeDone` projections -/
+
+@[simp] theorem activeDone_sd (s : St) : (activeDone s).sd = s.sd := by
+  by_cases h : s.active - 1 = -1 <;> simp [activeDone, h]
+@[simp] theorem activeDone_serves (s : St) : (activeDone s).serves = s.serves := by
+  by_cases h : s.active - 1 = -1 <;> simp [activeDone, h]
+@[simp] theorem activeDone_listening (s : St) : (activeDone s).listening = s.listening := by
+  by_cases h : s.active - 1 = -1 <;> simp [activeDone, h]
+@[simp] theorem activeDone_connClosed (s : St) : (activeDone s).connClosed = s.connClosed := by
+  by_cases h : s.active - 1 = -1 <;> simp [activeDone, h]
+@[simp] theorem activeDone_inflight (s : St) : (activeDone s).inflight = s.inflight := by
+  by_cases h : s.active - 1 = -1 <;> simp [activeDone, h]
+@[simp] theorem activeDone_tasks (s : St) : (activeDone s).tasks = s.tasks := by
+  by_cases h : s.active - 1 = -1 <;> simp [activeDone, h]
+@[simp] theorem activeDone_downs (s : St) : (activeDone s).downs = s.downs := by
+  by_cases h : s.active - 1 = -1 <;> simp [activeDone, h]
+@[simp] theorem activeDone_ctxCancelled (s : St) : (activeDone s).ctxCancelled = s.ctxCancelled := by
+  by_cases h : s.active - 1 = -1 <;> simp [activeDone, h]
+@[simp] theorem activeDone_active (s : St) : (activeDone s).active = s.active - 1 := by
+  by_cases h : s.active - 1 = -1 <;> simp [activeDone, h]
+theorem activeDone_closes (s : St) :
+    (activeDone s).closes = if s.active = 0 then s.closes + 1 else s.closes := by
+  unfold activeDone
+  by_cases h : s.active = 0
+  · have : s.active - 1 = -1 := by omega
+    simp [h]
+  · have : ¬ (s.active - 1 = -1) := by omega
+    simp [h, this]
+
+theorem activeDone_log (s : St) :
+    (activeDone s).log = s.log ∨ (activeDone s).log = s.log ++ [.doubleClose] := by
+  by_cases h : s.active - 1 = -1
+  · by_cases h2 : s.closes ≥ 1
+    · right; simp [activeDone, h, h2]
+    · left; simp [activeDone, h, h2]
+  · left; simp [activeDone, h]
+
+/-- our copy of `C07.isHandlerStart` -/
+def isHS : Event → Bool
+  | .handlerStart _ _ => true
+  | _ => false
+
+theorem activeDone_log_filter (s : St) : (activeDone s).log.filter isHS = s.log.filter isHS := by
+  rcases activeDone_log s with h | h <;> rw [h]
+  simp [isHS]
+
+theorem activeDone_log_mem (s : St) (t : Nat) (k : Key) :
+    Event.handlerStart t k ∈ (activeDone s).log ↔ Event.handlerStart t k ∈ s.log := by
+  rcases activeDone_log s with h | h <;> rw [h]
+  simp
+
+@[simp] theorem countedServes_activeDone (s : St) : countedServes (activeDone s) = countedServes s := by
+  simp [countedServes]
+@[simp] theorem liveTasks_activeDone (s : St) : liveTasks (activeDone s) = liveTasks s := by
+  simp [liveTasks]
+
+/-! ### `run` -/
+
+theorem run_append (H : Hash) (cfg : Cfg) (s : St) (l1 l2 : List Label) :
+    run H cfg s (l1 ++ l2) = run H cfg (run H cfg s l1) l2 := by
+  induction l1 generalizing s with
+  | nil => rfl
+  | cons l ls ih =>
+    simp only [List.cons_append, run]
+    split <;> exact ih _
+
+theorem run_preserves (H : Hash) (cfg : Cfg) (P : St → Prop)
+    (hstep : ∀ s l s', P s → step H cfg s l = some s' → P s') :
+    ∀ ls s, P s → P (run H cfg s ls) := by
+  intro ls
+  induction ls with
+  | nil => intro s h; exact h
+  | cons l ls ih =>
+    intro s h
+    simp only [run]
+    split
+    · next s' hs => exact ih _ (hstep s l s' h hs)
+    · exact ih _ h
+
+/-! ### inversion of `step`, label by label -/
+
+theorem step_serveEnter {H : Hash} {cfg : Cfg} {s s' : St} {i : Nat}
+    (h : step H cfg s (.serveEnter i) = some s') :
+    s.serves[i]? = some .notStarted ∧
+    ((s.sd = true ∧ s' = { s with serves := s.serves.set i (.returned .errShutdown),
+                                   log := s.log ++ [.serveReturned i] }) ∨
+     (s.sd = false ∧ cfg.variant = .fixed ∧
+        s' = { s with listening := s.listening.set i true, serves := s.serves.set i .running,
+                      active := s.active + 1 }) ∨
+     (s.sd = false ∧ cfg.variant = .current ∧
+        s' = { s with listening := s.listening.set i true, serves := s.serves.set i .registered })) := by
+  simp only [step] at h
+  split at h
+  · next hs =>
+    refine ⟨hs, ?_⟩
+    split at h
+    · next hsd => left; exact ⟨hsd, (Option.some.inj h).symm⟩
+    · next hsd =>
+      right
+      have hsd' : s.sd = false := by simpa using hsd
+      split at h
+      · next hv => left; exact ⟨hsd', hv, (Option.some.inj h).symm⟩
+      · next hv => right; exact ⟨hsd', hv, (Option.some.inj h).symm⟩
+  · cases h
+
+theorem step_serveCount {H : Hash} {cfg : Cfg} {s s' : St} {i : Nat}
+    (h : step H cfg s (.serveCount i) = some s') :
+    s.serves[i]? = some .registered ∧
+    s' = { s with serves := s.serves.set i .running, active := s.active + 1 } := by
+  simp only [step] at h
+  split at h
+  · next hs => exact ⟨hs, (Option.some.inj h).symm⟩
+  · cases h
+
+theorem step_serveRecv {H : Hash} {cfg : Cfg} {s s' : St} {i peer : Nat} {d : Bytes}
+    (h : step H cfg s (.serveRecv i peer d) = some s') :
+    s.serves[i]? = some .running ∧
+    s' = { s with tasks := s.tasks ++ [⟨i, .spawned (classify H cfg peer d)⟩], active := s.active + 1 } := by
+  simp only [step] at h
+  split at h
+  · next hs =>
+    split at h
+    · cases h
+    · exact ⟨hs, (Option.some.inj h).symm⟩
+  · cases h
+
+theorem step_serveReadErr {H : Hash} {cfg : Cfg} {s s' : St} {i : Nat}
+    (h : step H cfg s (.serveReadErr i) = some s') :
+    s.serves[i]? = some .running ∧ s.connClosed.getD i 0 > 0 ∧ s.sd = true ∧
+    s' = activeDone { s with serves := s.serves.set i (.returned .errShutdown),
+                             listening := s.listening.set i false,
+                             log := s.log ++ [.serveReturned i] } := by
+  simp only [step] at h
+  split at h
+  · next hs =>
+    split at h
+    · next hc => exact ⟨hs, hc.1, hc.2, (Option.some.inj h).symm⟩
+    · cases h
+  · cases h
+
+theorem step_taskRun {H : Hash} {cfg : Cfg} {s s' : St} {t : Nat}
+    (h : step H cfg s (.taskRun t) = some s') :
+    ∃ i fate, s.tasks[t]? = some ⟨i, .spawned fate⟩ ∧
+    ((∃ key p, fate = .handle key p ∧ key ∉ s.inflight.getD i [] ∧
+        s' = { s with tasks := s.tasks.set t ⟨i, .inHandler key⟩,
+                      inflight := s.inflight.set i (key :: s.inflight.getD i []),
+                      log := s.log ++ [.handlerStart t key] }) ∨
+     ((¬ ∃ key p, fate = .handle key p ∧ key ∉ s.inflight.getD i []) ∧
+        s' = activeDone { s with tasks := s.tasks.set t ⟨i, .done⟩, log := s.log ++ [.dropped t] })) := by
+  simp only [step] at h
+  split at h
+  · next i fate hs =>
+    refine ⟨i, fate, hs, ?_⟩
+    split at h
+    · next key p =>
+      split at h
+      · next hc =>
+        right
+        refine ⟨?_, (Option.some.inj h).symm⟩
+        rintro ⟨key', p', he, hn⟩
+        cases he
+        simp at hc
+        exact hn hc
+      · next hc =>
+        left
+        refine ⟨key, p, rfl, ?_, (Option.some.inj h).symm⟩
+        simpa using hc
+    · next hne =>
+      right
+      refine ⟨?_, (Option.some.inj h).symm⟩
+      rintro ⟨key', p', he, _⟩
+      exact hne key' p' he
+  · cases h
+
+theorem step_taskFinish {H : Hash} {cfg : Cfg} {s s' : St} {t : Nat}
+    (h : step H cfg s (.taskFinish t) = some s') :
+    ∃ i key, s.tasks[t]? = some ⟨i, .inHandler key⟩ ∧
+      s' = activeDone { s with tasks := s.tasks.set t ⟨i, .done⟩,
+                               inflight := s.inflight.set i ((s.inflight.getD i []).erase key),
+                               log := s.log ++ [.handlerEnd t] } := by
+  simp only [step] at h
+  split at h
+  · next i key hs => exact ⟨i, key, hs, (Option.some.inj h).symm⟩
+  · cases h
+
+theorem step_downEnter {H : Hash} {cfg : Cfg} {s s' : St} {j : Nat}
+    (h : step H cfg s (.downEnter j) = some s') :
+    ∃ c, s.downs[j]? = some ⟨.notStarted, c⟩ ∧
+    ((s.sd = true ∧ s' = { s with downs := s.downs.set j ⟨.waiting, c⟩ }) ∨
+     (s.sd = false ∧
+       s' = activeDone { s with
+              downs := s.downs.set j ⟨.waiting, c⟩
+              sd := true
+              ctxCancelled := true
+              connClosed := (List.range s.connClosed.length).map
+                 (fun i => s.connClosed.getD i 0 + (if s.listening.getD i false then 1 else 0))
+              log := s.log ++ ((List.range s.serves.length).filter
+                 (fun i => s.listening.getD i false)).map .listenerClosed })) := by
+  simp only [step] at h
+  split at h
+  · next c hs =>
+    refine ⟨c, hs, ?_⟩
+    split at h
+    · next hsd => left; exact ⟨hsd, (Option.some.inj h).symm⟩
+    · next hsd =>
+      right
+      exact ⟨by simpa using hsd, (Option.some.inj h).symm⟩
+  · cases h
+
+theorem step_downReturnNil {H : Hash} {cfg : Cfg} {s s' : St} {j : Nat}
+    (h : step H cfg s (.downReturnNil j) = some s') :
+    ∃ c, s.downs[j]? = some ⟨.waiting, c⟩ ∧ s.closes ≥ 1 ∧
+      s' = { s with downs := s.downs.set j ⟨.returned .nil, c⟩, log := s.log ++ [.downReturned j .nil] } := by
+  simp only [step] at h
+  split at h
+  · next c hs =>
+    split at h
+    · next hc => exact ⟨c, hs, hc, (Option.some.inj h).symm⟩
+    · cases h
+  · cases h
+
+theorem step_downReturnCtx {H : Hash} {cfg : Cfg} {s s' : St} {j : Nat}
+    (h : step H cfg s (.downReturnCtx j) = some s') :
+    s.downs[j]? = some ⟨.waiting, true⟩ ∧
+      s' = { s with downs := s.downs.set j ⟨.returned .ctxErr, true⟩,
+                    log := s.log ++ [.downReturned j .ctxErr] } := by
+  simp only [step] at h
+  split at h
+  · next hs => exact ⟨hs, (Option.some.inj h).symm⟩
+  · cases h
+
+theorem step_ctxExpire {H : Hash} {cfg : Cfg} {s s' : St} {j : Nat}
+    (h : step H cfg s (.ctxExpire j) = some s') :
+    ∃ pc, s.downs[j]? = some ⟨pc, false⟩ ∧ s' = { s with downs := s.downs.set j ⟨pc, true⟩ } := by
+  simp only [step] at h
+  split at h
+  · next pc hs => exact ⟨pc, hs, (Option.some.inj h).symm⟩
+  · cases h
+
+/-! ### general invariant (any variant): dedup table, log, caller contexts -/
+
+theorem getElem?_set_some {α} {l : List α} {i j : Nat} {a b : α} (h : (l.set i a)[j]? = some b) :
+    (i = j ∧ a = b ∧ i < l.length) ∨ (i ≠ j ∧ l[j]? = some b) := by
+  rw [List.getElem?_set] at h
+  by_cases hij : i = j
+  · simp only [hij, if_true] at h
+    split at h
+    · next hl => left; exact ⟨hij, Option.some.inj h, hij ▸ hl⟩
+    · cases h
+  · simp only [hij, if_false] at h
+    right; exact ⟨hij, h⟩
+
+theorem getElem?_append_singleton_some {α} {l : List α} {j : Nat} {x b : α}
+    (h : (l ++ [x])[j]? = some b) : l[j]? = some b ∨ (j = l.length ∧ x = b) := by
+  rw [List.getElem?_append] at h
+  split at h
+  · left; exact h
+  · next hl =>
+    right
+    have : j - l.length = 0 := by
+      by_cases h0 : j - l.length = 0
+      · exact h0
+      · have : ([x] : List α)[j - l.length]? = none := by
+          apply List.getElem?_eq_none; simp; omega
+        rw [this] at h; cases h
+    rw [this] at h
+    simp at h
+    exact ⟨by omega, h⟩
+
+structure InvG (s : St) : Prop where
+  len : s.inflight.length = s.serves.length
+  bound : ∀ (t : Nat) (tk : Task), s.tasks[t]? = some tk → tk.serve < s.serves.length
+  nodup : ∀ i, (s.inflight.getD i []).Nodup
+  mem : ∀ (i : Nat) (key : Key), key ∈ s.inflight.getD i [] ↔ ∃ t : Nat, s.tasks[t]? = some (⟨i, .inHandler key⟩ : Task)
+  uniq : ∀ (t t' i : Nat) (key : Key), s.tasks[t]? = some (⟨i, .inHandler key⟩ : Task) →
+    s.tasks[t']? = some (⟨i, .inHandler key⟩ : Task) → t = t'
+  log : ∀ (t : Nat) (key : Key), Event.handlerStart t key ∈ s.log →
+    ∃ i : Nat, s.tasks[t]? = some (⟨i, .inHandler key⟩ : Task) ∨ s.tasks[t]? = some (⟨i, .done⟩ : Task)
+  ctx : ∀ (j : Nat) (c : Bool), s.downs[j]? = some (⟨.returned .ctxErr, c⟩ : Down) → c = true
+
+theorem InvG.of_same {s s' : St} (h : InvG s) (hi : s'.inflight = s.inflight) (ht : s'.tasks = s.tasks)
+    (hl : s'.serves.length = s.serves.length)
+    (hlog : ∀ (t : Nat) (k : Key), Event.handlerStart t k ∈ s'.log → Event.handlerStart t k ∈ s.log)
+    (hctx : ∀ (j : Nat) (c : Bool), s'.downs[j]? = some (⟨.returned .ctxErr, c⟩ : Down) → c = true) : InvG s' := by
+  refine ⟨?_, ?_, ?_, ?_, ?_, ?_, hctx⟩
+  · rw [hi, hl]; exact h.len
+  · rw [ht, hl]; exact h.bound
+  · rw [hi]; exact h.nodup
+  · rw [hi, ht]; exact h.mem
+  · rw [ht]; exact h.uniq
+  · rw [ht]; intro t k hm; exact h.log t k (hlog t k hm)
+
+theorem InvG_init (nS nD : Nat) : InvG (init nS nD) := by
+  refine ⟨?_, ?_, ?_, ?_, ?_, ?_, ?_⟩
+  · simp [init]
+  · intro t tk h; simp [init] at h
+  · intro i; simp [init, List.getD_eq_getElem?_getD, List.getElem?_replicate]
+    split <;> simp
+  · intro i key
+    simp [init, List.getD_eq_getElem?_getD, List.getElem?_replicate]
+    split <;> simp
+  · intro t t' i key h; simp [init] at h
+  · intro t key h; simp [init] at h
+  · intro j c h
+    simp [init, List.getElem?_replicate] at h
+
+
+theorem ctx_set {downs : List Down} {j : Nat} {d : Down}
+    (h : ∀ (j : Nat) (c : Bool), downs[j]? = some (⟨.returned .ctxErr, c⟩ : Down) → c = true)
+    (hd : ∀ c, d = ⟨.returned .ctxErr, c⟩ → c = true) :
+    ∀ (j' : Nat) (c : Bool), (downs.set j d)[j']? = some (⟨.returned .ctxErr, c⟩ : Down) → c = true := by
+  intro j' c hh
+  rcases getElem?_set_some hh with ⟨_, he, _⟩ | ⟨_, he⟩
+  · exact hd c he
+  · exact h j' c he
+
+theorem InvG_serveEnter {H cfg s s' i} (h : InvG s) (hs : step H cfg s (.serveEnter i) = some s') : InvG s' := by
+  obtain ⟨_, hh | hh | hh⟩ := step_serveEnter hs
+  · obtain ⟨_, rfl⟩ := hh
+    refine h.of_same rfl rfl (by simp) ?_ h.ctx
+    intro t k; simp
+  · obtain ⟨_, _, rfl⟩ := hh
+    exact h.of_same rfl rfl (by simp) (fun _ _ x => x) h.ctx
+  · obtain ⟨_, _, rfl⟩ := hh
+    exact h.of_same rfl rfl (by simp) (fun _ _ x => x) h.ctx
+
+theorem InvG_serveCount {H cfg s s' i} (h : InvG s) (hs : step H cfg s (.serveCount i) = some s') : InvG s' := by
+  obtain ⟨_, rfl⟩ := step_serveCount hs
+  exact h.of_same rfl rfl (by simp) (fun _ _ x => x) h.ctx
+
+theorem InvG_serveReadErr {H cfg s s' i} (h : InvG s) (hs : step H cfg s (.serveReadErr i) = some s') : InvG s' := by
+  obtain ⟨_, _, _, rfl⟩ := step_serveReadErr hs
+  refine h.of_same (by simp) (by simp) (by simp) ?_ (by simpa using h.ctx)
+  intro t k; rw [activeDone_log_mem]; simp
+
+theorem InvG_downEnter {H cfg s s' j} (h : InvG s) (hs : step H cfg s (.downEnter j) = some s') : InvG s' := by
+  obtain ⟨c, _, hh | hh⟩ := step_downEnter hs
+  · obtain ⟨_, rfl⟩ := hh
+    refine h.of_same rfl rfl rfl (fun _ _ x => x) ?_
+    exact ctx_set h.ctx (by intro c hc; cases hc)
+  · obtain ⟨_, rfl⟩ := hh
+    refine h.of_same (by simp) (by simp) (by simp) ?_ ?_
+    · intro t k; rw [activeDone_log_mem]; simp
+    · simp only [activeDone_downs]
+      exact ctx_set h.ctx (by intro c hc; cases hc)
+
+theorem InvG_downReturnNil {H cfg s s' j} (h : InvG s) (hs : step H cfg s (.downReturnNil j) = some s') : InvG s' := by
+  obtain ⟨c, _, _, rfl⟩ := step_downReturnNil hs
+  refine h.of_same rfl rfl rfl ?_ ?_
+  · intro t k; simp
+  · exact ctx_set h.ctx (by intro c hc; cases hc)
+
+theorem InvG_downReturnCtx {H cfg s s' j} (h : InvG s) (hs : step H cfg s (.downReturnCtx j) = some s') : InvG s' := by
+  obtain ⟨_, rfl⟩ := step_downReturnCtx hs
+  refine h.of_same rfl rfl rfl ?_ ?_
+  · intro t k; simp
+  · exact ctx_set h.ctx (by intro c hc; cases hc; rfl)
+
+theorem InvG_ctxExpire {H cfg s s' j} (h : InvG s) (hs : step H cfg s (.ctxExpire j) = some s') : InvG s' := by
+  obtain ⟨pc, _, rfl⟩ := step_ctxExpire hs
+  refine h.of_same rfl rfl rfl (fun _ _ x => x) ?_
+  exact ctx_set h.ctx (by intro c hc; cases hc; rfl)
+
+
+theorem InvG_serveRecv {H cfg s s' i peer d} (h : InvG s)
+    (hs : step H cfg s (.serveRecv i peer d) = some s') : InvG s' := by
+  obtain ⟨hrun, rfl⟩ := step_serveRecv hs
+  have hi : i < s.serves.length := lt_of_getElem?_eq_some hrun
+  have old : ∀ (t : Nat) (i' : Nat) (k : Key),
+      (s.tasks ++ [(⟨i, .spawned (classify H cfg peer d)⟩ : Task)])[t]? = some (⟨i', .inHandler k⟩ : Task) →
+      s.tasks[t]? = some (⟨i', .inHandler k⟩ : Task) := by
+    intro t i' k hh
+    rcases getElem?_append_singleton_some hh with h1 | ⟨_, h1⟩
+    · exact h1
+    · cases h1
+  have new : ∀ (t : Nat) (x : Task), s.tasks[t]? = some x →
+      (s.tasks ++ [(⟨i, .spawned (classify H cfg peer d)⟩ : Task)])[t]? = some x := by
+    intro t x hh
+    rw [List.getElem?_append_left (lt_of_getElem?_eq_some hh)]; exact hh
+  refine ⟨h.len, ?_, h.nodup, ?_, ?_, ?_, h.ctx⟩
+  · intro t tk hh
+    rcases getElem?_append_singleton_some hh with h1 | ⟨_, h1⟩
+    · exact h.bound t tk h1
+    · subst h1; exact hi
+  · intro i' k
+    rw [h.mem]
+    constructor
+    · rintro ⟨t, ht⟩; exact ⟨t, new t _ ht⟩
+    · rintro ⟨t, ht⟩; exact ⟨t, old t _ _ ht⟩
+  · intro t t' i' k h1 h2
+    exact h.uniq t t' i' k (old _ _ _ h1) (old _ _ _ h2)
+  · intro t k hm
+    obtain ⟨i', h1 | h1⟩ := h.log t k hm
+    · exact ⟨i', Or.inl (new _ _ h1)⟩
+    · exact ⟨i', Or.inr (new _ _ h1)⟩
+
+
+/-- replacing a task that is not in a handler by one that is not in a handler does not change the
+    set of (index, in-handler task) pairs -/
+theorem inHandler_set_irrel {tasks : List Task} {t : Nat} {a b : Task}
+    (ha : tasks[t]? = some a) (hna : ∀ k, a.pc ≠ .inHandler k) (hnb : ∀ k, b.pc ≠ .inHandler k)
+    (t' i : Nat) (k : Key) :
+    (tasks.set t b)[t']? = some (⟨i, .inHandler k⟩ : Task) ↔ tasks[t']? = some (⟨i, .inHandler k⟩ : Task) := by
+  constructor
+  · intro hh
+    rcases getElem?_set_some hh with ⟨_, he, _⟩ | ⟨_, he⟩
+    · subst he; exact absurd rfl (hnb k)
+    · exact he
+  · intro hh
+    rw [List.getElem?_set]
+    by_cases htt : t = t'
+    · subst htt; rw [ha] at hh; cases hh; exact absurd rfl (hna k)
+    · simp [htt, hh]
+
+theorem InvG_taskDrop {s : St} {t i : Nat} {fate : Fate} (h : InvG s)
+    (ht : s.tasks[t]? = some (⟨i, .spawned fate⟩ : Task)) :
+    InvG (activeDone { s with tasks := s.tasks.set t ⟨i, .done⟩, log := s.log ++ [.dropped t] }) := by
+  have irr := @inHandler_set_irrel s.tasks t ⟨i, .spawned fate⟩ ⟨i, .done⟩ ht (by intro k; simp) (by intro k; simp)
+  have htl := lt_of_getElem?_eq_some ht
+  refine ⟨by simpa using h.len, ?_, by simpa using h.nodup, ?_, ?_, ?_, by simpa using h.ctx⟩
+  · intro t' tk hh
+    simp only [activeDone_tasks, activeDone_serves] at hh ⊢
+    rcases getElem?_set_some hh with ⟨_, he, _⟩ | ⟨_, he⟩
+    · subst he; exact h.bound t ⟨i, .spawned fate⟩ ht
+    · exact h.bound t' tk he
+  · intro i' k
+    simp only [activeDone_tasks, activeDone_inflight]
+    rw [h.mem]
+    constructor
+    · rintro ⟨t', h1⟩; exact ⟨t', (irr t' i' k).mpr h1⟩
+    · rintro ⟨t', h1⟩; exact ⟨t', (irr t' i' k).mp h1⟩
+  · intro t1 t2 i' k h1 h2
+    simp only [activeDone_tasks] at h1 h2
+    exact h.uniq t1 t2 i' k ((irr _ _ _).mp h1) ((irr _ _ _).mp h2)
+  · intro t' k hm
+    rw [activeDone_log_mem] at hm
+    simp only [activeDone_tasks]
+    have hm' : Event.handlerStart t' k ∈ s.log := by simpa using hm
+    obtain ⟨i', h1 | h1⟩ := h.log t' k hm'
+    · exact ⟨i', Or.inl ((irr _ _ _).mpr h1)⟩
+    · have : t ≠ t' := by
+        intro htt; subst htt; rw [ht] at h1; cases h1
+      refine ⟨i', Or.inr ?_⟩
+      rw [List.getElem?_set]; simp [this, h1]
+
+
+theorem InvG_taskEnter {s : St} {t i : Nat} {key : Key} {p : Packet} (h : InvG s)
+    (ht : s.tasks[t]? = some (⟨i, .spawned (.handle key p)⟩ : Task))
+    (hk : key ∉ s.inflight.getD i []) :
+    InvG { s with tasks := s.tasks.set t ⟨i, .inHandler key⟩,
+                  inflight := s.inflight.set i (key :: s.inflight.getD i []),
+                  log := s.log ++ [.handlerStart t key] } := by
+  have htl := lt_of_getElem?_eq_some ht
+  have hil : i < s.inflight.length := by rw [h.len]; exact h.bound t _ ht
+  have hnew : (s.tasks.set t (⟨i, .inHandler key⟩ : Task))[t]? = some ⟨i, .inHandler key⟩ := by
+    rw [List.getElem?_set]; simp [htl]
+  have hold : ∀ (t' : Nat) (x : Task), t ≠ t' → s.tasks[t']? = some x →
+      (s.tasks.set t (⟨i, .inHandler key⟩ : Task))[t']? = some x := by
+    intro t' x hne hx; rw [List.getElem?_set]; simp [hne, hx]
+  have hnot : ∀ (t' i' : Nat) (k : Key), s.tasks[t']? = some (⟨i', .inHandler k⟩ : Task) → t ≠ t' := by
+    intro t' i' k hx htt; subst htt; rw [ht] at hx; cases hx
+  refine ⟨by simpa using h.len, ?_, ?_, ?_, ?_, ?_, h.ctx⟩
+  · intro t' tk hh
+    rcases getElem?_set_some hh with ⟨_, he, _⟩ | ⟨_, he⟩
+    · subst he; exact h.bound t ⟨i, .spawned (.handle key p)⟩ ht
+    · exact h.bound t' tk he
+  · intro i'
+    simp only [getD_set]
+    split
+    · exact List.nodup_cons.mpr ⟨hk, h.nodup i⟩
+    · exact h.nodup i'
+  · intro i' k
+    simp only [getD_set]
+    by_cases hii : i = i'
+    · subst hii
+      simp only [hil, and_self, if_true, List.mem_cons]
+      constructor
+      · rintro (rfl | hm)
+        · exact ⟨t, hnew⟩
+        · obtain ⟨t', ht'⟩ := (h.mem i k).mp hm
+          exact ⟨t', hold t' _ (hnot _ _ _ ht') ht'⟩
+      · rintro ⟨t', ht'⟩
+        rcases getElem?_set_some ht' with ⟨_, he, _⟩ | ⟨_, he⟩
+        · cases he; left; rfl
+        · right; exact (h.mem i k).mpr ⟨t', he⟩
+    · simp only [hii, false_and, if_false]
+      rw [h.mem]
+      constructor
+      · rintro ⟨t', ht'⟩; exact ⟨t', hold t' _ (hnot _ _ _ ht') ht'⟩
+      · rintro ⟨t', ht'⟩
+        rcases getElem?_set_some ht' with ⟨_, he, _⟩ | ⟨_, he⟩
+        · cases he; exact absurd rfl hii
+        · exact ⟨t', he⟩
+  · intro t1 t2 i' k h1 h2
+    rcases getElem?_set_some h1 with ⟨e1, he1, _⟩ | ⟨n1, he1⟩ <;>
+    rcases getElem?_set_some h2 with ⟨e2, he2, _⟩ | ⟨n2, he2⟩
+    · omega
+    · cases he1; exact absurd ((h.mem i key).mpr ⟨t2, he2⟩) hk
+    · cases he2; exact absurd ((h.mem i key).mpr ⟨t1, he1⟩) hk
+    · exact h.uniq t1 t2 i' k he1 he2
+  · intro t' k hm
+    simp only [List.mem_append, List.mem_singleton] at hm
+    rcases hm with hm | hm
+    · obtain ⟨i', h1 | h1⟩ := h.log t' k hm
+      · exact ⟨i', Or.inl (hold t' _ (hnot _ _ _ h1) h1)⟩
+      · have : t ≠ t' := by intro htt; subst htt; rw [ht] at h1; cases h1
+        exact ⟨i', Or.inr (hold t' _ this h1)⟩
+    · cases hm; exact ⟨i, Or.inl hnew⟩
+
+theorem InvG_taskRun {H cfg s s' t} (h : InvG s) (hs : step H cfg s (.taskRun t) = some s') : InvG s' := by
+  obtain ⟨i, fate, ht, hh | hh⟩ := step_taskRun hs
+  · obtain ⟨key, p, rfl, hk, rfl⟩ := hh
+    exact InvG_taskEnter h ht hk
+  · obtain ⟨_, rfl⟩ := hh
+    exact InvG_taskDrop h ht
+
+theorem InvG_taskFinish {H cfg s s' t} (h : InvG s) (hs : step H cfg s (.taskFinish t) = some s') : InvG s' := by
+  obtain ⟨i, key, ht, rfl⟩ := step_taskFinish hs
+  have htl := lt_of_getElem?_eq_some ht
+  have hil : i < s.inflight.length := by rw [h.len]; exact h.bound t _ ht
+  have hnew : (s.tasks.set t (⟨i, .done⟩ : Task))[t]? = some ⟨i, .done⟩ := by
+    rw [List.getElem?_set]; simp [htl]
+  have hold : ∀ (t' : Nat) (x : Task), t ≠ t' → s.tasks[t']? = some x →
+      (s.tasks.set t (⟨i, .done⟩ : Task))[t']? = some x := by
+    intro t' x hne hx; rw [List.getElem?_set]; simp [hne, hx]
+  refine ⟨by simpa using h.len, ?_, ?_, ?_, ?_, ?_, by simpa using h.ctx⟩
+  · intro t' tk hh
+    simp only [activeDone_tasks, activeDone_serves] at hh ⊢
+    rcases getElem?_set_some hh with ⟨_, he, _⟩ | ⟨_, he⟩
+    · subst he; exact h.bound t ⟨i, .inHandler key⟩ ht
+    · exact h.bound t' tk he
+  · intro i'
+    simp only [activeDone_inflight, getD_set]
+    split
+    · exact (h.nodup i).erase key
+    · exact h.nodup i'
+  · intro i' k
+    simp only [activeDone_inflight, activeDone_tasks, getD_set]
+    by_cases hii : i = i'
+    · subst hii
+      simp only [hil, and_self, if_true]
+      rw [(h.nodup i).mem_erase_iff]
+      constructor
+      · rintro ⟨hne, hm⟩
+        obtain ⟨t', ht'⟩ := (h.mem i k).mp hm
+        have : t ≠ t' := by
+          intro htt; subst htt; rw [ht] at ht'; cases ht'; exact hne rfl
+        exact ⟨t', hold t' _ this ht'⟩
+      · rintro ⟨t', ht'⟩
+        rcases getElem?_set_some ht' with ⟨_, he, _⟩ | ⟨hne, he⟩
+        · cases he
+        · refine ⟨?_, (h.mem i k).mpr ⟨t', he⟩⟩
+          intro hkk; subst hkk
+          exact hne (h.uniq t t' i k ht he)
+    · simp only [hii, false_and, if_false]
+      rw [h.mem]
+      constructor
+      · rintro ⟨t', ht'⟩
+        have : t ≠ t' := by
+          intro htt; subst htt; rw [ht] at ht'; cases ht'; exact hii rfl
+        exact ⟨t', hold t' _ this ht'⟩
+      · rintro ⟨t', ht'⟩
+        rcases getElem?_set_some ht' with ⟨_, he, _⟩ | ⟨_, he⟩
+        · cases he
+        · exact ⟨t', he⟩
+  · intro t1 t2 i' k h1 h2
+    simp only [activeDone_tasks] at h1 h2
+    rcases getElem?_set_some h1 with ⟨e1, he1, _⟩ | ⟨n1, he1⟩
+    · cases he1
+    rcases getElem?_set_some h2 with ⟨e2, he2, _⟩ | ⟨n2, he2⟩
+    · cases he2
+    exact h.uniq t1 t2 i' k he1 he2
+  · intro t' k hm
+    rw [activeDone_log_mem] at hm
+    simp only [activeDone_tasks]
+    have hm' : Event.handlerStart t' k ∈ s.log := by simpa using hm
+    by_cases htt : t = t'
+    · subst htt; exact ⟨i, Or.inr hnew⟩
+    · obtain ⟨i', h1 | h1⟩ := h.log t' k hm'
+      · exact ⟨i', Or.inl (hold t' _ htt h1)⟩
+      · exact ⟨i', Or.inr (hold t' _ htt h1)⟩
+
+theorem InvG_step {H cfg s s'} (l : Label) (h : InvG s) (hs : step H cfg s l = some s') : InvG s' := by
+  cases l with
+  | serveEnter i => exact InvG_serveEnter h hs
+  | serveCount i => exact InvG_serveCount h hs
+  | serveRecv i peer d => exact InvG_serveRecv h hs
+  | serveReadErr i => exact InvG_serveReadErr h hs
+  | taskRun t => exact InvG_taskRun h hs
+  | taskFinish t => exact InvG_taskFinish h hs
+  | downEnter j => exact InvG_downEnter h hs
+  | downReturnNil j => exact InvG_downReturnNil h hs
+  | downReturnCtx j => exact InvG_downReturnCtx h hs
+  | ctxExpire j => exact InvG_ctxExpire h hs
+
+theorem InvG_run (H : Hash) (cfg : Cfg) (nS nD : Nat) (ls : List Label) :
+    InvG (run H cfg (init nS nD) ls) :=
+  run_preserves H cfg InvG (fun _ l _ h hs => InvG_step l h hs) ls _ (InvG_init nS nD)
+
+/-! ### invariant of the repaired server (variant `.fixed`): accounting, single close, listeners -/
+
+structure InvF (s : St) : Prop where
+  len1 : s.listening.length = s.serves.length
+  len2 : s.connClosed.length = s.serves.length
+  noReg : ∀ i : Nat, s.serves[i]? ≠ some .registered
+  act : s.active = (countedServes s : Int) + (liveTasks s : Int) - (if s.sd then 1 else 0)
+  cl1 : s.closes ≤ 1
+  cl2 : s.closes = 1 ↔ (s.sd = true ∧ countedServes s = 0 ∧ liveTasks s = 0)
+  sdc : s.sd = true → s.ctxCancelled = true ∧
+    ∀ i : Nat, s.listening.getD i false = true → s.connClosed.getD i 0 ≥ 1
+  runL : ∀ i : Nat, s.serves[i]? = some .running → s.listening.getD i false = true
+  nil : ∀ (j : Nat) (c : Bool), s.downs[j]? = some (⟨.returned .nil, c⟩ : Down) → s.closes ≥ 1
+
+theorem InvF_init (nS nD : Nat) : InvF (init nS nD) := by
+  refine ⟨by simp [init], by simp [init], ?_, ?_, by simp [init], ?_, by simp [init], ?_, ?_⟩
+  · intro i; simp [init, List.getElem?_replicate]
+  · simp [init, countedServes, liveTasks]
+  · simp [init]
+  · intro i; simp [init, List.getElem?_replicate]
+  · intro j c; simp [init, List.getElem?_replicate]
+
+theorem counted_set {s : St} {i : Nat} {a : ServePc} (b : ServePc) (h : s.serves[i]? = some a) :
+    ((s.serves.set i b).filter (· == .running)).length + (if a = .running then 1 else 0) =
+      countedServes s + (if b = .running then 1 else 0) := by
+  have := filter_set_length (· == ServePc.running) s.serves i a b h
+  simpa [countedServes] using this
+
+theorem live_set {s : St} {t : Nat} {a : Task} (b : Task) (h : s.tasks[t]? = some a) :
+    ((s.tasks.set t b).filter (fun t => t.pc != .done)).length + (if a.pc = .done then 0 else 1) =
+      liveTasks s + (if b.pc = .done then 0 else 1) := by
+  have := filter_set_length (fun t : Task => t.pc != .done) s.tasks t a b h
+  simp [liveTasks] at this ⊢
+  by_cases h1 : a.pc = .done <;> by_cases h2 : b.pc = .done <;> simp [h1, h2] at this ⊢ <;> omega
+
+theorem noReg_set {serves : List ServePc} {i : Nat} {b : ServePc} (hb : b ≠ .registered)
+    (h : ∀ i : Nat, serves[i]? ≠ some .registered) : ∀ i' : Nat, (serves.set i b)[i']? ≠ some .registered := by
+  intro i' hh
+  rcases getElem?_set_some hh with ⟨_, he, _⟩ | ⟨_, he⟩
+  · exact hb he
+  · exact h i' he
+
+
+theorem nil_set {downs : List Down} {j : Nat} {d : Down} {n : Nat}
+    (h : ∀ (j : Nat) (c : Bool), downs[j]? = some (⟨.returned .nil, c⟩ : Down) → n ≥ 1)
+    (hd : ∀ c, d = ⟨.returned .nil, c⟩ → n ≥ 1) :
+    ∀ (j' : Nat) (c : Bool), (downs.set j d)[j']? = some (⟨.returned .nil, c⟩ : Down) → n ≥ 1 := by
+  intro j' c hh
+  rcases getElem?_set_some hh with ⟨_, he, _⟩ | ⟨_, he⟩
+  · exact hd c he
+  · exact h j' c he
+
+theorem InvF_serveEnter {H cfg s s' i} (hv : cfg.variant = .fixed) (h : InvF s)
+    (hs : step H cfg s (.serveEnter i) = some s') : InvF s' := by
+  obtain ⟨hns, hh | hh | hh⟩ := step_serveEnter hs
+  · obtain ⟨hsd, rfl⟩ := hh
+    have hc := counted_set (.returned .errShutdown) hns
+    simp at hc
+    have hcs : countedServes { s with serves := s.serves.set i (.returned .errShutdown), log := s.log ++ [.serveReturned i] } = countedServes s := by
+      simp only [countedServes]; exact hc
+    refine ⟨by simpa using h.len1, by simpa using h.len2, noReg_set (by simp) h.noReg, ?_, h.cl1, ?_, h.sdc, ?_, h.nil⟩
+    · rw [hcs]; exact h.act
+    · rw [hcs]; exact h.cl2
+    · intro i' hh
+      rcases getElem?_set_some hh with ⟨_, he, _⟩ | ⟨_, he⟩
+      · cases he
+      · exact h.runL i' he
+  · obtain ⟨hsd, _, rfl⟩ := hh
+    have hil := lt_of_getElem?_eq_some hns
+    have hc := counted_set .running hns
+    simp at hc
+    have hcs : countedServes { s with listening := s.listening.set i true, serves := s.serves.set i .running, active := s.active + 1 } = countedServes s + 1 := by
+      simp only [countedServes]; exact hc
+    have hact := h.act
+    have hcl2 := h.cl2
+    simp only [hsd] at hact hcl2
+    refine ⟨by simpa using h.len1, by simpa using h.len2, noReg_set (by simp) h.noReg, ?_, h.cl1, ?_, ?_, ?_, h.nil⟩
+    · rw [hcs]; simp only [liveTasks, hsd] at hact ⊢; omega
+    · simp only [hsd]; simp at hcl2 ⊢; exact hcl2
+    · intro hsd'; simp only [hsd] at hsd'; cases hsd'
+    · intro i' hh
+      simp only [getD_set]
+      rcases getElem?_set_some hh with ⟨he, _, _⟩ | ⟨_, he⟩
+      · have : i < s.listening.length := by rw [h.len1]; exact hil
+        subst he
+        simp only [this, and_self, if_true]
+      · have := h.runL i' he
+        split
+        · rfl
+        · exact this
+  · obtain ⟨_, hv', _⟩ := hh
+    rw [hv] at hv'; cases hv'
+
+
+theorem InvF_serveCount {H cfg s s' i} (h : InvF s)
+    (hs : step H cfg s (.serveCount i) = some s') : InvF s' := by
+  obtain ⟨hr, _⟩ := step_serveCount hs
+  exact absurd hr (h.noReg i)
+
+theorem pos_of_getElem?_filter {α} {l : List α} {p : α → Bool} {i : Nat} {a : α}
+    (h : l[i]? = some a) (hp : p a = true) : (l.filter p).length ≥ 1 := by
+  have hm : a ∈ l.filter p := List.mem_filter.mpr ⟨List.mem_of_getElem? h, hp⟩
+  exact List.length_pos_of_mem hm
+
+theorem counted_pos {s : St} {i : Nat} (h : s.serves[i]? = some .running) : countedServes s ≥ 1 :=
+  pos_of_getElem?_filter h (by simp)
+
+theorem live_pos {s : St} {t : Nat} {a : Task} (h : s.tasks[t]? = some a) (ha : a.pc ≠ .done) :
+    liveTasks s ≥ 1 :=
+  pos_of_getElem?_filter h (by simpa using ha)
+
+theorem InvF_serveRecv {H cfg s s' i peer d} (h : InvF s)
+    (hs : step H cfg s (.serveRecv i peer d) = some s') : InvF s' := by
+  obtain ⟨hrun, rfl⟩ := step_serveRecv hs
+  have hpos := counted_pos hrun
+  have hl : liveTasks { s with tasks := s.tasks ++ [⟨i, .spawned (classify H cfg peer d)⟩], active := s.active + 1 } = liveTasks s + 1 := by
+    simp [liveTasks, List.filter_append]
+  have hcs : countedServes { s with tasks := s.tasks ++ [⟨i, .spawned (classify H cfg peer d)⟩], active := s.active + 1 } = countedServes s := rfl
+  have hact := h.act
+  have hcl2 := h.cl2
+  have hcl1 := h.cl1
+  refine ⟨h.len1, h.len2, h.noReg, ?_, h.cl1, ?_, h.sdc, h.runL, h.nil⟩
+  · rw [hl, hcs]; simp only []; omega
+  · rw [hl, hcs]; simp only []
+    constructor
+    · intro hc; have := hcl2.mp hc; omega
+    · intro hc; omega
+
+theorem InvF_serveReadErr {H cfg s s' i} (h : InvF s)
+    (hs : step H cfg s (.serveReadErr i) = some s') : InvF s' := by
+  obtain ⟨hrun, _, hsd, rfl⟩ := step_serveReadErr hs
+  have hpos := counted_pos hrun
+  have hc := counted_set (.returned .errShutdown) hrun
+  simp at hc
+  have hact := h.act
+  have hcl2 := h.cl2
+  have hcl1 := h.cl1
+  simp only [hsd, if_true, true_and] at hact hcl2
+  have hcl0 : s.closes = 0 := by
+    have : ¬ s.closes = 1 := by intro hx; have := hcl2.mp hx; omega
+    omega
+  refine ⟨by simpa using h.len1, by simpa using h.len2, ?_, ?_, ?_, ?_, ?_, ?_, ?_⟩
+  · simp only [activeDone_serves]; exact noReg_set (by simp) h.noReg
+  · simp only [activeDone_active, countedServes_activeDone, liveTasks_activeDone, activeDone_sd, hsd, if_true]
+    simp only [countedServes, liveTasks] at hc hact ⊢
+    omega
+  · rw [activeDone_closes]; simp only []; split <;> omega
+  · rw [activeDone_closes]
+    simp only [countedServes_activeDone, liveTasks_activeDone, activeDone_sd, hsd, true_and]
+    simp only [countedServes, liveTasks] at hc hact ⊢
+    split <;> omega
+  · intro _
+    simp only [activeDone_ctxCancelled, activeDone_listening, activeDone_connClosed]
+    refine ⟨(h.sdc hsd).1, ?_⟩
+    intro i' hl
+    simp only [getD_set] at hl
+    split at hl
+    · cases hl
+    · exact (h.sdc hsd).2 i' hl
+  · intro i' hh
+    simp only [activeDone_serves, activeDone_listening] at hh ⊢
+    rcases getElem?_set_some hh with ⟨_, he, _⟩ | ⟨hne, he⟩
+    · cases he
+    · simp only [getD_set, hne, false_and, if_false]
+      exact h.runL i' he
+  · intro j c hh
+    simp only [activeDone_downs] at hh
+    have := h.nil j c hh
+    omega
+
+
+/-- a live task finishes (dropped, or handler returned): common part of `taskRun`/`taskFinish` -/
+theorem InvF_taskDone {s s0 : St} {t i : Nat} {a : Task} (h : InvF s)
+    (ht : s.tasks[t]? = some a) (ha : a.pc ≠ .done)
+    (h1 : s0.sd = s.sd) (h2 : s0.active = s.active) (h3 : s0.closes = s.closes)
+    (h4 : s0.ctxCancelled = s.ctxCancelled) (h5 : s0.serves = s.serves) (h6 : s0.listening = s.listening)
+    (h7 : s0.connClosed = s.connClosed) (h8 : s0.tasks = s.tasks.set t ⟨i, .done⟩) (h9 : s0.downs = s.downs) :
+    InvF (activeDone s0) := by
+  have hpos := live_pos ht ha
+  have hc := live_set ⟨i, .done⟩ ht
+  simp [ha] at hc
+  have hact := h.act
+  have hcl2 := h.cl2
+  have hcl1 := h.cl1
+  have hcl0 : s.closes = 0 := by
+    have : ¬ s.closes = 1 := by intro hx; have := hcl2.mp hx; omega
+    omega
+  have hcs : countedServes s0 = countedServes s := by simp [countedServes, h5]
+  have hls : liveTasks s0 + 1 = liveTasks s := by simp only [liveTasks, h8]; exact hc
+  refine ⟨?_, ?_, ?_, ?_, ?_, ?_, ?_, ?_, ?_⟩
+  · simp only [activeDone_serves, activeDone_listening, h5, h6]; exact h.len1
+  · simp only [activeDone_serves, activeDone_connClosed, h5, h7]; exact h.len2
+  · simp only [activeDone_serves, h5]; exact h.noReg
+  · simp only [activeDone_active, countedServes_activeDone, liveTasks_activeDone, activeDone_sd, h1, h2, hcs]
+    omega
+  · rw [activeDone_closes, h2, h3]; split <;> omega
+  · rw [activeDone_closes, h2, h3]
+    simp only [countedServes_activeDone, liveTasks_activeDone, activeDone_sd, h1, hcs]
+    cases hsd : s.sd <;> simp [hsd] at hact ⊢ <;> split <;> omega
+  · simp only [activeDone_sd, activeDone_ctxCancelled, activeDone_listening, activeDone_connClosed, h1, h4, h6, h7]
+    exact h.sdc
+  · simp only [activeDone_serves, activeDone_listening, h5, h6]; exact h.runL
+  · intro j c hh
+    simp only [activeDone_downs, h9] at hh
+    have := h.nil j c hh
+    omega
+
+theorem InvF_taskRun {H cfg s s' t} (h : InvF s) (hs : step H cfg s (.taskRun t) = some s') : InvF s' := by
+  obtain ⟨i, fate, ht, hh | hh⟩ := step_taskRun hs
+  · obtain ⟨key, p, rfl, hk, rfl⟩ := hh
+    have hc := live_set ⟨i, .inHandler key⟩ ht
+    simp at hc
+    have hls : liveTasks { s with tasks := s.tasks.set t ⟨i, .inHandler key⟩, inflight := s.inflight.set i (key :: s.inflight.getD i []), log := s.log ++ [.handlerStart t key] } = liveTasks s := by
+      simp only [liveTasks]; exact hc
+    have hcs : countedServes { s with tasks := s.tasks.set t ⟨i, .inHandler key⟩, inflight := s.inflight.set i (key :: s.inflight.getD i []), log := s.log ++ [.handlerStart t key] } = countedServes s := rfl
+    refine ⟨h.len1, h.len2, h.noReg, ?_, h.cl1, ?_, h.sdc, h.runL, h.nil⟩
+    · rw [hls, hcs]; exact h.act
+    · rw [hls, hcs]; exact h.cl2
+  · obtain ⟨_, rfl⟩ := hh
+    exact InvF_taskDone (i := i) h ht (by simp) rfl rfl rfl rfl rfl rfl rfl rfl rfl
+
+theorem InvF_taskFinish {H cfg s s' t} (h : InvF s) (hs : step H cfg s (.taskFinish t) = some s') : InvF s' := by
+  obtain ⟨i, key, ht, rfl⟩ := step_taskFinish hs
+  exact InvF_taskDone (i := i) h ht (by simp) rfl rfl rfl rfl rfl rfl rfl rfl rfl
+
+
+theorem getD_map_range {β} (n i : Nat) (f : Nat → β) (d : β) (h : i < n) :
+    ((List.range n).map f).getD i d = f i := by
+  simp [List.getD_eq_getElem?_getD, List.getElem?_map, List.getElem?_range h]
+
+theorem lt_of_getD_true {l : List Bool} {i : Nat} (h : l.getD i false = true) : i < l.length := by
+  by_cases hl : i < l.length
+  · exact hl
+  · rw [List.getD_eq_getElem?_getD, List.getElem?_eq_none (by omega)] at h
+    cases h
+
+theorem InvF_downEnter {H cfg s s' j} (h : InvF s) (hs : step H cfg s (.downEnter j) = some s') : InvF s' := by
+  obtain ⟨c, _, hh | hh⟩ := step_downEnter hs
+  · obtain ⟨_, rfl⟩ := hh
+    refine ⟨h.len1, h.len2, h.noReg, h.act, h.cl1, h.cl2, h.sdc, h.runL, ?_⟩
+    exact nil_set h.nil (by intro c hc; cases hc)
+  · obtain ⟨hsd, rfl⟩ := hh
+    have hact := h.act
+    have hcl2 := h.cl2
+    have hcl1 := h.cl1
+    simp [hsd] at hact hcl2
+    have hcl0 : s.closes = 0 := by omega
+    refine ⟨by simpa using h.len1, by simpa using h.len2, by simpa using h.noReg, ?_, ?_, ?_, ?_, ?_, ?_⟩
+    · simp only [activeDone_active, countedServes_activeDone, liveTasks_activeDone, activeDone_sd, if_true]
+      simp only [countedServes, liveTasks] at hact ⊢
+      omega
+    · rw [activeDone_closes]; simp only []; split <;> omega
+    · rw [activeDone_closes]
+      simp only [countedServes_activeDone, liveTasks_activeDone, activeDone_sd, true_and]
+      simp only [countedServes, liveTasks] at hact ⊢
+      split <;> omega
+    · intro _
+      simp only [activeDone_ctxCancelled, activeDone_listening, activeDone_connClosed, true_and]
+      intro i hl
+      have hil : i < s.connClosed.length := by rw [h.len2, ← h.len1]; exact lt_of_getD_true hl
+      rw [getD_map_range _ _ _ _ hil]
+      simp only [hl, if_true]; omega
+    · simpa using h.runL
+    · intro j' c' hh
+      simp only [activeDone_downs] at hh
+      have := nil_set h.nil (by intro c hc; cases hc) j' c' hh
+      omega
+
+theorem InvF_downReturnNil {H cfg s s' j} (h : InvF s) (hs : step H cfg s (.downReturnNil j) = some s') : InvF s' := by
+  obtain ⟨c, _, hc, rfl⟩ := step_downReturnNil hs
+  refine ⟨h.len1, h.len2, h.noReg, h.act, h.cl1, h.cl2, h.sdc, h.runL, ?_⟩
+  exact nil_set h.nil (fun _ _ => hc)
+
+theorem InvF_downReturnCtx {H cfg s s' j} (h : InvF s) (hs : step H cfg s (.downReturnCtx j) = some s') : InvF s' := by
+  obtain ⟨_, rfl⟩ := step_downReturnCtx hs
+  refine ⟨h.len1, h.len2, h.noReg, h.act, h.cl1, h.cl2, h.sdc, h.runL, ?_⟩
+  exact nil_set h.nil (by intro c hc; cases hc)
+
+theorem InvF_ctxExpire {H cfg s s' j} (h : InvF s) (hs : step H cfg s (.ctxExpire j) = some s') : InvF s' := by
+  obtain ⟨pc, hd, rfl⟩ := step_ctxExpire hs
+  refine ⟨h.len1, h.len2, h.noReg, h.act, h.cl1, h.cl2, h.sdc, h.runL, ?_⟩
+  refine nil_set h.nil ?_
+  intro c hc; cases hc
+  exact h.nil j false hd
+
+theorem InvF_step {H cfg s s'} (hv : cfg.variant = .fixed) (l : Label) (h : InvF s)
+    (hs : step H cfg s l = some s') : InvF s' := by
+  cases l with
+  | serveEnter i => exact InvF_serveEnter hv h hs
+  | serveCount i => exact InvF_serveCount h hs
+  | serveRecv i peer d => exact InvF_serveRecv h hs
+  | serveReadErr i => exact InvF_serveReadErr h hs
+  | taskRun t => exact InvF_taskRun h hs
+  | taskFinish t => exact InvF_taskFinish h hs
+  | downEnter j => exact InvF_downEnter h hs
+  | downReturnNil j => exact InvF_downReturnNil h hs
+  | downReturnCtx j => exact InvF_downReturnCtx h hs
+  | ctxExpire j => exact InvF_ctxExpire h hs
+
+theorem InvF_run_from (H : Hash) (cfg : Cfg) (hv : cfg.variant = .fixed) (ls : List Label) (s : St)
+    (h : InvF s) : InvF (run H cfg s ls) :=
+  run_preserves H cfg InvF (fun _ l _ h hs => InvF_step hv l h hs) ls s h
+
+theorem InvF_run (H : Hash) (cfg : Cfg) (hv : cfg.variant = .fixed) (nS nD : Nat) (ls : List Label) :
+    InvF (run H cfg (init nS nD) ls) :=
+  InvF_run_from H cfg hv ls _ (InvF_init nS nD)
+
+/-! ### drained states are absorbing; every shutdown state can be drained -/
+
+/-- our copy of `C07.terminalServe` -/
+def terminalS : ServePc → Bool
+  | .notStarted | .returned _ => true
+  | _ => false
+
+structure Drained (s : St) : Prop where
+  sd : s.sd = true
+  serves : ∀ pc ∈ s.serves, terminalS pc = true
+  tasks : ∀ t ∈ s.tasks, t.pc = .done
+
+theorem mem_set_cases {α} {l : List α} {i : Nat} {a x : α} (h : x ∈ l.set i a) : x = a ∨ x ∈ l := by
+  obtain ⟨j, hj⟩ := List.mem_iff_getElem?.mp h
+  rcases getElem?_set_some hj with ⟨_, he, _⟩ | ⟨_, he⟩
+  · left; exact he.symm
+  · right; exact List.mem_of_getElem? he
+
+theorem Drained_step {H cfg s s'} (l : Label) (h : Drained s) (hs : step H cfg s l = some s') :
+    Drained s' ∧ s'.log.filter isHS = s.log.filter isHS := by
+  cases l with
+  | serveEnter i =>
+    obtain ⟨_, hh | hh | hh⟩ := step_serveEnter hs
+    · obtain ⟨_, rfl⟩ := hh
+      refine ⟨⟨h.sd, ?_, h.tasks⟩, by simp [isHS]⟩
+      intro pc hpc
+      rcases mem_set_cases hpc with rfl | hm
+      · rfl
+      · exact h.serves pc hm
+    · have := h.sd; rw [hh.1] at this; cases this
+    · have := h.sd; rw [hh.1] at this; cases this
+  | serveCount i =>
+    obtain ⟨hr, _⟩ := step_serveCount hs
+    have := h.serves _ (List.mem_of_getElem? hr)
+    cases this
+  | serveRecv i peer d =>
+    obtain ⟨hr, _⟩ := step_serveRecv hs
+    have := h.serves _ (List.mem_of_getElem? hr)
+    cases this
+  | serveReadErr i =>
+    obtain ⟨hr, _⟩ := step_serveReadErr hs
+    have := h.serves _ (List.mem_of_getElem? hr)
+    cases this
+  | taskRun t =>
+    obtain ⟨i, fate, ht, _⟩ := step_taskRun hs
+    have := h.tasks _ (List.mem_of_getElem? ht)
+    cases this
+  | taskFinish t =>
+    obtain ⟨i, key, ht, _⟩ := step_taskFinish hs
+    have := h.tasks _ (List.mem_of_getElem? ht)
+    cases this
+  | downEnter j =>
+    obtain ⟨c, _, hh | hh⟩ := step_downEnter hs
+    · obtain ⟨_, rfl⟩ := hh
+      exact ⟨⟨h.sd, h.serves, h.tasks⟩, rfl⟩
+    · have := h.sd; rw [hh.1] at this; cases this
+  | downReturnNil j =>
+    obtain ⟨c, _, _, rfl⟩ := step_downReturnNil hs
+    exact ⟨⟨h.sd, h.serves, h.tasks⟩, by simp [isHS]⟩
+  | downReturnCtx j =>
+    obtain ⟨_, rfl⟩ := step_downReturnCtx hs
+    exact ⟨⟨h.sd, h.serves, h.tasks⟩, by simp [isHS]⟩
+  | ctxExpire j =>
+    obtain ⟨pc, _, rfl⟩ := step_ctxExpire hs
+    exact ⟨⟨h.sd, h.serves, h.tasks⟩, rfl⟩
+
+theorem Drained_run (H : Hash) (cfg : Cfg) (ls : List Label) (s : St) (h : Drained s) :
+    Drained (run H cfg s ls) ∧ (run H cfg s ls).log.filter isHS = s.log.filter isHS := by
+  induction ls generalizing s with
+  | nil => exact ⟨h, rfl⟩
+  | cons l ls ih =>
+    simp only [run]
+    split
+    · next s' hs =>
+      obtain ⟨hd, hl⟩ := Drained_step l h hs
+      obtain ⟨hd', hl'⟩ := ih s' hd
+      exact ⟨hd', hl'.trans hl⟩
+    · exact ih s h
+
+theorem filter_length_zero {α} {l : List α} {p : α → Bool} (h : (l.filter p).length = 0) :
+    ∀ a ∈ l, p a = false := by
+  intro a ha
+  have := List.filter_eq_nil_iff.mp (List.length_eq_zero_iff.mp h) a ha
+  simpa using this
+
+theorem exists_of_filter_pos {α} {l : List α} {p : α → Bool} (h : (l.filter p).length ≠ 0) :
+    ∃ (i : Nat) (a : α), l[i]? = some a ∧ p a = true := by
+  have hne : l.filter p ≠ [] := by intro he; rw [he] at h; exact h rfl
+  obtain ⟨a, ha⟩ := List.exists_mem_of_ne_nil _ hne
+  obtain ⟨hal, hpa⟩ := List.mem_filter.mp ha
+  obtain ⟨i, hi⟩ := List.mem_iff_getElem?.mp hal
+  exact ⟨i, a, hi, hpa⟩
+
+theorem Drained_of_counts {s : St} (h : InvF s) (hsd : s.sd = true) (hc : countedServes s = 0)
+    (hl : liveTasks s = 0) : Drained s := by
+  refine ⟨hsd, ?_, ?_⟩
+  · intro pc hpc
+    have h1 := filter_length_zero hc pc hpc
+    obtain ⟨i, hi⟩ := List.mem_iff_getElem?.mp hpc
+    have h2 := h.noReg i
+    cases pc with
+    | notStarted => rfl
+    | registered => exact absurd hi h2
+    | running => simp at h1
+    | returned r => rfl
+  · intro t ht
+    have h1 := filter_length_zero hl t ht
+    simpa using h1
+
+theorem Drained_of_closed {s : St} (h : InvF s) (hc : s.closes ≥ 1) : Drained s := by
+  have h1 := h.cl1
+  obtain ⟨a, b, c⟩ := h.cl2.mp (by omega)
+  exact Drained_of_counts h a b c
+
+
+def isSpawned : TaskPc → Bool
+  | .spawned _ => true
+  | _ => false
+
+@[simp] theorem isSpawned_spawned (f : Fate) : isSpawned (.spawned f) = true := rfl
+@[simp] theorem isSpawned_inHandler (k : Key) : isSpawned (.inHandler k) = false := rfl
+@[simp] theorem isSpawned_done : isSpawned .done = false := rfl
+
+def spawnedTasks (s : St) : Nat := (s.tasks.filter (fun t => isSpawned t.pc)).length
+
+theorem spawned_set {s : St} {t : Nat} {a : Task} (b : Task) (h : s.tasks[t]? = some a) :
+    ((s.tasks.set t b).filter (fun t => isSpawned t.pc)).length + (if isSpawned a.pc then 1 else 0) =
+      spawnedTasks s + (if isSpawned b.pc then 1 else 0) :=
+  filter_set_length (fun t : Task => isSpawned t.pc) s.tasks t a b h
+
+@[simp] theorem spawnedTasks_activeDone (s : St) : spawnedTasks (activeDone s) = spawnedTasks s := by
+  simp [spawnedTasks]
+
+def drainMeasure (s : St) : Nat := countedServes s + liveTasks s + spawnedTasks s
+
+theorem taskRun_enabled {H cfg} {s : St} {t i : Nat} {fate : Fate}
+    (ht : s.tasks[t]? = some (⟨i, .spawned fate⟩ : Task)) :
+    ∃ s', step H cfg s (.taskRun t) = some s' := by
+  simp only [step, ht]
+  cases fate with
+  | handle key p =>
+    by_cases hc : (s.inflight.getD i []).contains key = true
+    · simp only [hc, if_true]; exact ⟨_, rfl⟩
+    · simp only [hc]; exact ⟨_, rfl⟩
+  | _ => exact ⟨_, rfl⟩
+
+theorem serveReadErr_enabled {H cfg} {s : St} {i : Nat}
+    (hi : s.serves[i]? = some .running) (hc : s.connClosed.getD i 0 > 0) (hsd : s.sd = true) :
+    ∃ s', step H cfg s (.serveReadErr i) = some s' := by
+  simp only [step, hi]
+  rw [if_pos ⟨hc, hsd⟩]
+  exact ⟨_, rfl⟩
+
+theorem taskFinish_enabled {H cfg} {s : St} {t i : Nat} {key : Key}
+    (ht : s.tasks[t]? = some (⟨i, .inHandler key⟩ : Task)) :
+    ∃ s', step H cfg s (.taskFinish t) = some s' := by
+  simp only [step, ht]
+  exact ⟨_, rfl⟩
+
+theorem drain_progress {H cfg} {s : St} (h : InvF s) (hsd : s.sd = true)
+    (hm : countedServes s + liveTasks s ≠ 0) :
+    ∃ l s', step H cfg s l = some s' ∧ s'.sd = true ∧ drainMeasure s' < drainMeasure s := by
+  by_cases hsp : spawnedTasks s = 0
+  · by_cases hlv : liveTasks s = 0
+    · -- a running serve
+      have hcs : countedServes s ≠ 0 := by omega
+      obtain ⟨i, pc, hi, hp⟩ := exists_of_filter_pos hcs
+      have : pc = .running := by simpa using hp
+      subst this
+      have hcc := (h.sdc hsd).2 i (h.runL i hi)
+      obtain ⟨s', hs'⟩ := serveReadErr_enabled (H := H) (cfg := cfg) hi hcc hsd
+      refine ⟨.serveReadErr i, s', hs', ?_⟩
+      obtain ⟨_, _, _, rfl⟩ := step_serveReadErr hs'
+      refine ⟨by simp [hsd], ?_⟩
+      · have hc := counted_set (.returned .errShutdown) hi
+        simp at hc
+        simp only [drainMeasure, countedServes_activeDone, liveTasks_activeDone, spawnedTasks_activeDone]
+        simp only [countedServes, liveTasks, spawnedTasks] at *
+        omega
+    · -- a task in its handler
+      obtain ⟨t, a, ht, hp⟩ := exists_of_filter_pos hlv
+      have hns := filter_length_zero hsp a (List.mem_of_getElem? ht)
+      obtain ⟨i, pc⟩ := a
+      cases pc with
+      | spawned f => simp at hns
+      | done => simp at hp
+      | inHandler key =>
+        obtain ⟨s', hs'⟩ := taskFinish_enabled (H := H) (cfg := cfg) ht
+        refine ⟨.taskFinish t, s', hs', ?_⟩
+        obtain ⟨i', key', ht', rfl⟩ := step_taskFinish hs'
+        rw [ht] at ht'; cases ht'
+        refine ⟨by simp [hsd], ?_⟩
+        · have hc := live_set ⟨i, .done⟩ ht
+          have hc2 := spawned_set ⟨i, .done⟩ ht
+          simp at hc hc2
+          simp only [drainMeasure, countedServes_activeDone, liveTasks_activeDone, spawnedTasks_activeDone]
+          simp only [countedServes, liveTasks, spawnedTasks] at *
+          omega
+  · obtain ⟨t, a, ht, hp⟩ := exists_of_filter_pos hsp
+    obtain ⟨i, pc⟩ := a
+    cases pc with
+    | inHandler key => simp at hp
+    | done => simp at hp
+    | spawned fate =>
+      obtain ⟨s', hs'⟩ := taskRun_enabled (H := H) (cfg := cfg) ht
+      refine ⟨.taskRun t, s', hs', ?_⟩
+      obtain ⟨i', fate', ht', hh | hh⟩ := step_taskRun hs'
+      · obtain ⟨key, p, rfl, hk, rfl⟩ := hh
+        rw [ht] at ht'; cases ht'
+        refine ⟨hsd, ?_⟩
+        have hc := live_set ⟨i, .inHandler key⟩ ht
+        have hc2 := spawned_set ⟨i, .inHandler key⟩ ht
+        simp at hc hc2
+        simp only [drainMeasure]
+        simp only [countedServes, liveTasks, spawnedTasks] at *
+        omega
+      · obtain ⟨_, rfl⟩ := hh
+        rw [ht] at ht'; cases ht'
+        refine ⟨by simp [hsd], ?_⟩
+        have hc := live_set ⟨i, .done⟩ ht
+        have hc2 := spawned_set ⟨i, .done⟩ ht
+        simp at hc hc2
+        simp only [drainMeasure, countedServes_activeDone, liveTasks_activeDone, spawnedTasks_activeDone]
+        simp only [countedServes, liveTasks, spawnedTasks] at *
+        omega
+
+theorem drain {H cfg} (hv : cfg.variant = .fixed) :
+    ∀ (n : Nat) (s : St), InvF s → s.sd = true → drainMeasure s ≤ n →
+      ∃ ls', (run H cfg s ls').sd = true ∧
+        countedServes (run H cfg s ls') = 0 ∧ liveTasks (run H cfg s ls') = 0 := by
+  intro n
+  induction n with
+  | zero =>
+    intro s h hsd hm
+    refine ⟨[], hsd, ?_, ?_⟩ <;> simp only [run, drainMeasure] at hm ⊢ <;> omega
+  | succ n ih =>
+    intro s h hsd hm
+    by_cases hz : countedServes s + liveTasks s = 0
+    · refine ⟨[], hsd, ?_, ?_⟩ <;> simp only [run] <;> omega
+    · obtain ⟨l, s', hs, hsd', hlt⟩ := drain_progress (H := H) (cfg := cfg) h hsd hz
+      obtain ⟨ls', h0, h1, h2⟩ := ih s' (InvF_step hv l h hs) hsd' (by omega)
+      refine ⟨l :: ls', ?_, ?_, ?_⟩ <;> simp only [run, hs] <;> assumption
+
+theorem serveEnter_shutdown {H : Hash} {cfg : Cfg} {s : St} {i : Nat} (hsd : s.sd = true)
+    (hi : s.serves[i]? = some .notStarted) :
+    step H cfg s (.serveEnter i) =
+      some { s with serves := s.serves.set i (.returned .errShutdown), log := s.log ++ [.serveReturned i] } := by
+  simp only [step, hi, hsd, if_true]
+
+/-- the datagram of the non-vacuity example of C07 passes the pipeline -/
+theorem classify_example :
+    classify (fun _ => zeros 16) { secretOf := fun _ => .secret [1] } 0 ([1, 7, 0, 20] ++ zeros 16)
+      = .handle (0, 7) ⟨1, 7, zeros 16, [1], []⟩ := by
+  simp [classify, isAuthenticRequest, requestClass, parse, lengthField, be16, zeros, parseAttrs,
+    maxPacketLength]
+
+/-! ### C06: the datagram pipeline and the dedup table -/
+
+theorem classify_handle_iff' (H : Hash) (cfg : Cfg) (peer : Nat) (d : Bytes) (key : Key) (p : Packet) :
+    classify H cfg peer d = .handle key p ↔
+      ∃ s, cfg.secretOf peer = .secret s ∧ s ≠ [] ∧
+        (cfg.skipVerify = true ∨ isAuthenticRequest H d s = true) ∧
+        parse d s = .ok p ∧ key = (peer, p.id) := by
+  unfold classify
+  cases hsec : cfg.secretOf peer with
+  | error => simp
+  | empty => simp
+  | secret s =>
+    simp only [SecretAns.secret.injEq]
+    by_cases hs0 : s.length = 0
+    · have hs : s = [] := List.length_eq_zero_iff.mp hs0
+      rw [if_pos hs0]
+      constructor
+      · intro h; cases h
+      · rintro ⟨s', rfl, hne, _⟩; exact absurd hs hne
+    · have hs : s ≠ [] := fun h => hs0 (by simp [h])
+      rw [if_neg hs0]
+      by_cases hau : (!cfg.skipVerify && !isAuthenticRequest H d s) = true
+      · rw [if_pos hau]
+        simp only [Bool.and_eq_true, Bool.not_eq_true'] at hau
+        constructor
+        · intro h; cases h
+        · rintro ⟨s', rfl, _, h1 | h1, _⟩
+          · rw [hau.1] at h1; cases h1
+          · rw [hau.2] at h1; cases h1
+      · rw [if_neg hau]
+        have hau' : cfg.skipVerify = true ∨ isAuthenticRequest H d s = true := by
+          cases h1 : cfg.skipVerify <;> cases h2 : isAuthenticRequest H d s <;> simp [h1, h2] at hau ⊢
+        cases hp : parse d s with
+        | ok p' =>
+          simp only [Fate.handle.injEq]
+          constructor
+          · rintro ⟨rfl, rfl⟩
+            exact ⟨s, rfl, hs, hau', hp, rfl⟩
+          · rintro ⟨s', rfl, _, _, h1, h2⟩
+            rw [hp] at h1; cases h1
+            exact ⟨h2.symm, rfl⟩
+        | err =>
+          constructor
+          · intro h; cases h
+          · rintro ⟨s', rfl, _, _, h1, _⟩; rw [hp] at h1; cases h1
+        | fault =>
+          constructor
+          · intro h; cases h
+          · rintro ⟨s', rfl, _, _, h1, _⟩; rw [hp] at h1; cases h1
+
+theorem parse_secret {d s : Bytes} {p : Packet} (h : parse d s = .ok p) :
+    p.secret = s ∧ 20 ≤ d.length ∧ (d.drop 4).take 16 = p.auth ∧ p.auth.length = 16 := by
+  obtain ⟨h20, _, _, _, as, _, rfl⟩ := (parse_ok_iff d s p).mp h
+  refine ⟨rfl, h20, rfl, ?_⟩
+  simp; omega
+
+theorem reply_authentic' (H : Hash) (hH : ∀ x, (H x).length = 16) (cfg : Cfg) (peer : Nat) (d : Bytes)
+    (key : Key) (p : Packet) (code : Int) (attrs : Attrs) (w : Bytes)
+    (h : classify H cfg peer d = .handle key p)
+    (hc : Rfc.encClass code = .hashReqAuth)
+    (he : encode H { response p code with attrs := attrs } = .ok w) :
+    isAuthenticResponse H w d p.secret = true := by
+  obtain ⟨s, _, hs, _, hp, _⟩ := (classify_handle_iff' H cfg peer d key p).mp h
+  obtain ⟨h1, h2, h3, h4⟩ := parse_secret hp
+  exact C03.response_verifies H hH p d code attrs w h2 h3 h4 (by rw [h1]; exact hs) hc he
+
+theorem handler_iff' (H : Hash) (cfg : Cfg) (s : St) (t i : Nat) (fate : Fate)
+    (ht : s.tasks[t]? = some (⟨i, .spawned fate⟩ : Task)) :
+    (∃ s' key, step H cfg s (.taskRun t) = some s' ∧ s'.tasks[t]? = some (⟨i, .inHandler key⟩ : Task)) ↔
+    (∃ key p, fate = .handle key p ∧ key ∉ s.inflight.getD i []) := by
+  have htl := lt_of_getElem?_eq_some ht
+  constructor
+  · rintro ⟨s', key, hs, hk⟩
+    obtain ⟨i', fate', ht', hh | hh⟩ := step_taskRun hs
+    · rw [ht] at ht'; cases ht'
+      obtain ⟨key', p, rfl, hn, _⟩ := hh
+      exact ⟨key', p, rfl, hn⟩
+    · obtain ⟨_, rfl⟩ := hh
+      rw [ht] at ht'; cases ht'
+      simp [htl] at hk
+  · rintro ⟨key, p, rfl, hn⟩
+    obtain ⟨s', hs⟩ := taskRun_enabled (H := H) (cfg := cfg) ht
+    refine ⟨s', key, hs, ?_⟩
+    obtain ⟨i', fate', ht', hh | hh⟩ := step_taskRun hs
+    · rw [ht] at ht'; cases ht'
+      obtain ⟨key', p', he, _, rfl⟩ := hh
+      cases he
+      simp [htl]
+    · rw [ht] at ht'; cases ht'
+      exact absurd ⟨key, p, rfl, hn⟩ hh.1
+
+
+theorem dropped_otherwise_of_no_close (H : Hash) (cfg : Cfg) (s : St) (t i : Nat) (fate : Fate)
+    (ht : s.tasks[t]? = some (⟨i, .spawned fate⟩ : Task))
+    (hn : ¬ ∃ key p, fate = .handle key p ∧ key ∉ s.inflight.getD i [])
+    (hnc : s.closes = 0 ∨ s.active ≠ 0) :
+    ∃ s', step H cfg s (.taskRun t) = some s' ∧ s'.tasks[t]? = some (⟨i, .done⟩ : Task) ∧
+      s'.log = s.log ++ [.dropped t] ∧ s'.inflight = s.inflight := by
+  have htl := lt_of_getElem?_eq_some ht
+  obtain ⟨s', hs⟩ := taskRun_enabled (H := H) (cfg := cfg) ht
+  refine ⟨s', hs, ?_⟩
+  obtain ⟨i', fate', ht', hh | hh⟩ := step_taskRun hs
+  · rw [ht] at ht'; cases ht'
+    obtain ⟨key, p, he, hk, _⟩ := hh
+    exact absurd ⟨key, p, he, hk⟩ hn
+  · rw [ht] at ht'; cases ht'
+    obtain ⟨_, rfl⟩ := hh
+    refine ⟨by simp [htl], ?_, by simp⟩
+    unfold activeDone
+    by_cases ha : s.active - 1 = -1
+    · have h0 : s.active = 0 := by omega
+      have hc0 : s.closes = 0 := by
+        rcases hnc with h | h
+        · exact h
+        · exact absurd h0 h
+      simp [h0, hc0]
+    · simp [ha]
+
+theorem dropped_otherwise_reach (H : Hash) (cfg : Cfg) (hv : cfg.variant = .fixed) (nS nD : Nat)
+    (ls : List Label) (t i : Nat) (fate : Fate)
+    (ht : (run H cfg (init nS nD) ls).tasks[t]? = some (⟨i, .spawned fate⟩ : Task))
+    (hn : ¬ ∃ key p, fate = .handle key p ∧ key ∉ (run H cfg (init nS nD) ls).inflight.getD i []) :
+    ∃ s', step H cfg (run H cfg (init nS nD) ls) (.taskRun t) = some s' ∧
+      s'.tasks[t]? = some (⟨i, .done⟩ : Task) ∧
+      s'.log = (run H cfg (init nS nD) ls).log ++ [.dropped t] ∧
+      s'.inflight = (run H cfg (init nS nD) ls).inflight := by
+  have hI := InvF_run H cfg hv nS nD ls
+  refine dropped_otherwise_of_no_close H cfg _ t i fate ht hn (Or.inl ?_)
+  have hpos := live_pos ht (by simp)
+  have h1 := hI.cl1
+  have h2 := hI.cl2
+  have : ¬ (run H cfg (init nS nD) ls).closes = 1 := by
+    intro hx; have := h2.mp hx; omega
+  omega
+
+theorem released_after_return' (H : Hash) (cfg : Cfg) (nS nD : Nat) (ls : List Label) (t i : Nat) (key : Key)
+    (ht : (run H cfg (init nS nD) ls).tasks[t]? = some (⟨i, .inHandler key⟩ : Task)) :
+    ∃ s', step H cfg (run H cfg (init nS nD) ls) (.taskFinish t) = some s' ∧
+      key ∉ s'.inflight.getD i [] := by
+  have hI := InvG_run H cfg nS nD ls
+  obtain ⟨s', hs⟩ := taskFinish_enabled (H := H) (cfg := cfg) ht
+  refine ⟨s', hs, ?_⟩
+  obtain ⟨i', key', ht', rfl⟩ := step_taskFinish hs
+  rw [ht] at ht'; cases ht'
+  simp only [activeDone_inflight, getD_set]
+  split
+  · intro hm
+    have := ((hI.nodup i).mem_erase_iff).mp hm
+    exact this.1 rfl
+  · next hne =>
+    have hil : i < (run H cfg (init nS nD) ls).inflight.length := by
+      rw [hI.len]; exact hI.bound t _ ht
+    exact absurd (by simpa using hil) hne
+
+
+def cex : St := { closes := 1, active := 0, tasks := [⟨0, .spawned .dropSecretError⟩] }
+def cexCfg : Cfg := { secretOf := fun _ => .error }
+
+/-- `C06.dropped_otherwise` is false as stated -/
+theorem dropped_otherwise_false :
+    ¬ (∀ (H : Hash) (cfg : Cfg) (s : St) (t i : Nat) (fate : Fate)
+      (_ : s.tasks[t]? = some (⟨i, .spawned fate⟩ : Task))
+      (_ : ¬ ∃ key p, fate = .handle key p ∧ key ∉ s.inflight.getD i []),
+      ∃ s', step H cfg s (.taskRun t) = some s' ∧ s'.tasks[t]? = some (⟨i, .done⟩ : Task) ∧
+        s'.log = s.log ++ [.dropped t] ∧ s'.inflight = s.inflight) := by
+  intro h
+  obtain ⟨s', hs, _, hl, _⟩ := h (fun _ => []) cexCfg cex 0 0 .dropSecretError rfl (by rintro ⟨k, p, h, _⟩; cases h)
+  have : step (fun _ => []) cexCfg cex (.taskRun 0) =
+      some { cex with active := -1, closes := 2, tasks := [⟨0, .done⟩], log := [.dropped 0, .doubleClose] } := by
+    rfl
+  rw [this] at hs
+  cases hs
+  revert hl
+  decide
+
+end RV.Server
